@@ -6,6 +6,7 @@ InvalidResponseError; _push reads its status with {OKAY, FAIL} allowed, returns 
 PushFailedError(payload); no handler on the way to the public methods swallows; ND-own: while the flush awaits the
 OKAY for its WRTE, a WRTE of the same stream (the only packet that can carry a failure report) is accepted and its
 payload kept in the sync receive buffer, exactly once, before waiting on.  Not decided: timing on a real device.
+A flush that awaits its OKAY from the pump directly (not through _read_until, which owes every WRTE an OKAY) is a violation.
 """
 import ast
 
